@@ -210,7 +210,7 @@ def s_rerun(ctx, cli, work):
 
 
 def s_edit_sequences(ctx, cli, work, rng):
-    n = 12 if ctx.tier == "thorough" else 4
+    n = 20 if ctx.tier == "thorough" else 6
     for k in range(n):
         base = os.path.join(work, "edit%d" % k)
         os.makedirs(base)
@@ -218,12 +218,26 @@ def s_edit_sequences(ctx, cli, work, rng):
         hist = []
         cur = None
         prev = None
-        for step in range(6):
-            choice = rng.choice(["static-a", "static-b", "dyn", "same", "error"])
+        for step in range(8):
+            choice = rng.choice(["static-a", "static-b", "dyn", "dyn2", "dyn", "dyn2", "same", "error", "rm-header", "rm-ui", "toggle-no-dynamic"])
             if choice == "same" and cur is None:
                 choice = "static-a"
-            if choice != "same":
-                cur = {"static-a": DOC_STATIC % "a", "static-b": DOC_STATIC % "b", "dyn": DOC_DYN, "error": DOC_STATIC.replace("text", "fooBar") % "a"}[choice]
+            if choice in ("rm-header", "rm-ui", "toggle-no-dynamic") and cur is None:
+                choice = "dyn"
+            if choice == "rm-header":
+                if os.path.exists(os.path.join(base, "uisupport_w.h")):
+                    os.remove(os.path.join(base, "uisupport_w.h"))
+            elif choice == "rm-ui":
+                if os.path.exists(os.path.join(base, "w.ui")):
+                    os.remove(os.path.join(base, "w.ui"))
+            elif choice == "toggle-no-dynamic":
+                # a run with --no-dynamic-binding in between (it does not produce or remove the header), then a normal run below
+                open(os.path.join(base, "W.qml"), "w").write(DOC_STATIC % "t")
+                run_cli(cli, base, ["--no-dynamic-binding", "W.qml"])
+                cur = DOC_STATIC % "t"
+            elif choice != "same":
+                cur = {"static-a": DOC_STATIC % "a", "static-b": DOC_STATIC % "b", "dyn": DOC_DYN, "dyn2": DOC_DYN.replace("text: e.text", 'text: e.text + "!"'),
+                       "error": DOC_STATIC.replace("text", "fooBar") % "a"}[choice]
             open(os.path.join(base, "W.qml"), "w").write(cur)
             hist.append(choice)
             before = tree(base)
